@@ -8,6 +8,7 @@ package c13
 
 import (
 	"bytes"
+	"errors"
 	"fmt"
 	"os"
 	"runtime"
@@ -35,13 +36,25 @@ type trial struct {
 	workers [][]string
 	dis     disruptor
 	reorder bool
+	// noLitMinus: the server does not advertise LITERAL-, so every literal of
+	// the client is a synchronising one
+	noLitMinus bool
+	// refuse: the k-th synchronising literal is answered with a tagged NO
+	// instead of a continuation request (0 = never)
+	refuse int
+	// logoutGrace: number of further responses the server still sends after
+	// it has answered LOGOUT before it closes the connection
+	logoutGrace int
 }
 
 func (tr trial) String() string {
-	return fmt.Sprintf("workers=%v disruptor=%+v reorder=%v", tr.workers, tr.dis, tr.reorder)
+	return fmt.Sprintf("workers=%v disruptor=%+v reorder=%v noLitMinus=%v refuse=%d logoutGrace=%d", tr.workers, tr.dis, tr.reorder, tr.noLitMinus, tr.refuse, tr.logoutGrace)
 }
 
-var opNames = []string{"Noop", "Status", "Fetch", "Search", "UIDSearch", "AppendSync", "AppendNonSync", "List", "Capability", "Caps", "State", "Mailbox", "Enable", "Store", "Idle", "Login"}
+var opNames = []string{"Noop", "Status", "Fetch", "Search", "UIDSearch", "AppendSync", "AppendNonSync", "List", "Capability", "Caps", "State", "Mailbox", "Enable", "Store", "Idle", "Login",
+	"Noop", "Status", "Fetch", "BigFetchCollect", "BigFetchLag", "BigFetchLag", "LoginLit", "Search2", "Logout"}
+
+const bigN = 300
 
 // server is the scripted peer: answers every command promptly.
 type server struct {
@@ -51,16 +64,22 @@ type server struct {
 	tags      map[string]int
 	responses int
 	logins    int
+	refused   int
 	inflight  *int64
 	atDisrupt int64
 	errs      []string
 	done      chan struct{}
 }
 
-const caps = "IMAP4rev1 ESEARCH UIDPLUS ENABLE IDLE LITERAL- UTF8=ACCEPT"
+const capsLitMinus = "IMAP4rev1 ESEARCH UIDPLUS ENABLE IDLE LITERAL- UTF8=ACCEPT"
+const capsNoLit = "IMAP4rev1 ESEARCH UIDPLUS ENABLE IDLE UTF8=ACCEPT"
 
 func (sv *server) reply(cmd *script.Command) string {
 	tag := cmd.Tag
+	caps := capsLitMinus
+	if sv.tr.noLitMinus {
+		caps = capsNoLit
+	}
 	body := strings.Repeat("message body line\r\n", 12)
 	switch cmd.Name {
 	case "CAPABILITY":
@@ -84,7 +103,16 @@ func (sv *server) reply(cmd *script.Command) string {
 		return "* STATUS box (MESSAGES 3)\r\n" + tag + " OK done\r\n"
 	case "LIST":
 		return "* LIST () \"/\" a\r\n* LIST () \"/\" b\r\n" + tag + " OK done\r\n"
+	case "LOGOUT":
+		return "* BYE logging out\r\n" + tag + " OK done\r\n"
 	case "FETCH":
+		if bytes.Contains(cmd.Raw, []byte(fmt.Sprintf(" 1:%d ", bigN))) {
+			var b strings.Builder
+			for i := 1; i <= bigN; i++ {
+				fmt.Fprintf(&b, "* %d FETCH (FLAGS (\\Seen))\r\n", i)
+			}
+			return b.String() + tag + " OK done\r\n"
+		}
 		return fmt.Sprintf("* 1 FETCH (FLAGS (\\Seen) BODY[] {%d}\r\n%s)\r\n* 2 FETCH (FLAGS ())\r\n%s OK done\r\n", len(body), body, tag)
 	case "STORE":
 		return "* 1 FETCH (FLAGS (\\Seen))\r\n" + tag + " OK done\r\n"
@@ -109,8 +137,21 @@ func (sv *server) errf(f string, a ...any) {
 func (sv *server) loop() {
 	defer close(sv.done)
 	s := sv.s
+	caps := capsLitMinus
+	if sv.tr.noLitMinus {
+		caps = capsNoLit
+	}
 	s.Send("* OK [CAPABILITY " + caps + "] ready\r\n")
 	var held []string
+	syncLits := 0
+	s.OnLiteral = func(ev *script.LiteralEvent) script.Decision {
+		syncLits++
+		if syncLits == sv.tr.refuse {
+			return script.Refuse
+		}
+		return script.Accept
+	}
+	afterLogout := -1
 	for {
 		cmd, err := s.ReadCommand()
 		if err != nil {
@@ -124,7 +165,12 @@ func (sv *server) loop() {
 			sv.errf("tag %q was used for two commands", cmd.Tag)
 		}
 		var out string
-		if cmd.Name == "IDLE" {
+		if cmd.Refused {
+			sv.mu.Lock()
+			sv.refused++
+			sv.mu.Unlock()
+			out = cmd.Tag + " NO literal refused\r\n"
+		} else if cmd.Name == "IDLE" {
 			s.Send("+ idling\r\n")
 			if l, err := s.ReadRawLine(); err != nil || l != "DONE" {
 				return
@@ -134,6 +180,15 @@ func (sv *server) loop() {
 			out = sv.reply(cmd)
 		}
 		sv.responses++
+		if afterLogout >= 0 {
+			afterLogout++
+			if afterLogout > sv.tr.logoutGrace {
+				s.Close()
+				return
+			}
+		} else if cmd.Name == "LOGOUT" && !cmd.Refused {
+			afterLogout = 0
+		}
 		if sv.tr.dis.kind == "server-close" && sv.responses > sv.tr.dis.after {
 			sv.atDisrupt = atomic.LoadInt64(sv.inflight)
 			s.Close()
@@ -221,6 +276,10 @@ func runTrial(t fataler, tr trial) int64 {
 			sv.atDisrupt = atomic.LoadInt64(&inflight)
 			go c.Close()
 		}
+		if tr.dis.kind == "client-write-error" && int(n) == tr.dis.after+1 {
+			sv.atDisrupt = atomic.LoadInt64(&inflight)
+			clientEnd.FailWrites(errors.New("injected write failure"))
+		}
 		done := make(chan error, 1)
 		go func() { done <- f() }()
 		select {
@@ -249,6 +308,50 @@ func runTrial(t fataler, tr trial) int64 {
 				case "Fetch":
 					wait(who, op, func() error {
 						_, err := c.Fetch(imap.SeqSetNum(1, 2), &imap.FetchOptions{Flags: true, BodySection: []*imap.FetchItemBodySection{{}}}).Collect()
+						return err
+					})
+				case "BigFetchCollect":
+					wait(who, op, func() error {
+						// (how FETCH data is shared between overlapping FETCH/STORE commands of different goroutines is not judged here)
+						_, err := c.Fetch(imap.SeqSet{imap.SeqRange{Start: 1, Stop: bigN}}, &imap.FetchOptions{Flags: true}).Collect()
+						return err
+					})
+				case "BigFetchLag":
+					// a consumer that lags behind (more than the client buffers)
+					// and looks at the client's state between messages; the
+					// stream is consumed and closed as the contract demands.
+					// (It does not submit commands before the stream is drained:
+					// a submission may have to wait for another goroutine's
+					// literal, whose continuation request the blocked decoder
+					// cannot deliver - a deadlock made by the caller.)
+					wait(who, op, func() error {
+						cmd := c.Fetch(imap.SeqSet{imap.SeqRange{Start: 1, Stop: bigN}}, &imap.FetchOptions{Flags: true})
+						time.Sleep(3 * time.Millisecond)
+						n := 0
+						for {
+							msg := cmd.Next()
+							if msg == nil {
+								break
+							}
+							for msg.Next() != nil {
+							}
+							n++
+							if n%40 == 0 {
+								_ = c.State()
+								_ = c.Mailbox()
+							}
+						}
+						err := cmd.Close()
+						return err
+					})
+				case "Logout":
+					wait(who, op, func() error { return c.Logout().Wait() })
+				case "LoginLit":
+					// two literals in one command (8-bit user and password, UTF8=ACCEPT not necessarily enabled)
+					wait(who, op, func() error { return c.Login("üser", "pässword").Wait() })
+				case "Search2":
+					wait(who, op, func() error {
+						_, err := c.Search(&imap.SearchCriteria{Body: []string{"é", "ü"}, Text: []string{"ö"}}, nil).Wait()
 						return err
 					})
 				case "Store":
@@ -352,9 +455,12 @@ func genTrial(t *rapid.T) trial {
 		}
 		tr.workers = append(tr.workers, ops)
 	}
-	tr.dis.kind = rapid.SampledFrom([]string{"none", "server-close", "server-close", "server-close-midline", "client-close", "client-close"}).Draw(t, "disruptor")
+	tr.dis.kind = rapid.SampledFrom([]string{"none", "server-close", "server-close", "server-close-midline", "client-close", "client-close", "client-write-error", "client-write-error"}).Draw(t, "disruptor")
 	tr.dis.after = rapid.IntRange(2, 12).Draw(t, "after")
 	tr.reorder = rapid.Bool().Draw(t, "reorder")
+	tr.noLitMinus = rapid.Bool().Draw(t, "noLitMinus")
+	tr.refuse = rapid.SampledFrom([]int{0, 0, 1, 2, 3}).Draw(t, "refuse")
+	tr.logoutGrace = rapid.IntRange(0, 6).Draw(t, "logoutGrace")
 	return tr
 }
 
@@ -395,8 +501,18 @@ func TestReplayScenarios(t *testing.T) {
 		runTrial(t, trial{workers: [][]string{{"Enable", "Noop"}, {"Search", "Search"}, {"UIDSearch", "Caps"}}, dis: disruptor{kind: "none"}})
 		runTrial(t, trial{workers: [][]string{{"Fetch", "Noop"}, {"AppendSync"}, {"State", "Mailbox", "List"}}, dis: disruptor{kind: "client-close", after: 3 + i%3}, reorder: true})
 		runTrial(t, trial{workers: [][]string{{"Login", "Noop"}, {"Search", "Search", "Search"}, {"Caps", "UIDSearch", "Caps"}, {"Idle", "Caps"}}, dis: disruptor{kind: "none"}})
-		ev.EvalN(4)
+		// LOGOUT completed while the server keeps the connection open, a lagging
+		// streaming FETCH, and a write failure in a third goroutine
+		runTrial(t, trial{workers: [][]string{{"Logout", "BigFetchLag"}, {"Noop", "Noop", "Noop"}, {"Status", "Noop"}}, dis: disruptor{kind: "client-write-error", after: 3 + i%4}, logoutGrace: 6})
+		// refused literal of a multi-literal command, then more literal commands
+		runTrial(t, trial{workers: [][]string{{"LoginLit", "AppendSync"}, {"Search2", "AppendSync"}}, dis: disruptor{kind: "none"}, noLitMinus: true, refuse: 1 + i%3})
+		// backlogged FETCH streams while other goroutines look at the client
+		runTrial(t, trial{workers: [][]string{{"BigFetchLag"}, {"State", "Mailbox", "Noop", "State"}, {"BigFetchCollect"}}, dis: disruptor{kind: "none"}})
+		ev.EvalN(7)
 	}
+	ev.NonTrivial("scenario:write-error-after-logout-during-fetch")
+	ev.NonTrivial("scenario:refused-literal-then-literals")
+	ev.NonTrivial("scenario:backlogged-fetch-vs-state")
 	ev.NonTrivial("scenario:capability-refresh-vs-commands")
 	ev.NonTrivial("scenario:registration-vs-connection-loss")
 	ev.NonTrivial("scenario:enable-vs-search")
